@@ -184,6 +184,7 @@ func TestC17(t *testing.T) {
 			return model.Result{}
 		}
 		step(model.Op{Kind: "CreateTable", Schema: &s})
+		step(model.Op{Kind: "CreateTable", Schema: sTable("tbl2", false)})
 		lateIdx := 0
 		rt.Repeat(map[string]func(*rapid.T){
 			"put":    func(rt *rapid.T) { step(model.Op{Kind: "Put", Table: s.Table, Item: g.item(rt)}) },
@@ -228,7 +229,35 @@ func TestC17(t *testing.T) {
 					op.StartKey = r.LastKey
 				}
 			},
-			"batch":    func(rt *rapid.T) { step(g.batchOp(rt, 8)) },
+			"batch": func(rt *rapid.T) {
+				op := g.batchOp(rt, 8)
+				if w.m.Tables["tbl2"] != nil && rapid.Bool().Draw(rt, "multiTable") {
+					// second table with synthetic distinct keys: totals above and below 25
+					n := rapid.SampledFrom([]int{1, 3, 12, 13, 17, 20, 25}).Draw(rt, "secondTableN")
+					tb := model.TableBatch{Table: "tbl2"}
+					for i := 0; i < n; i++ {
+						tb.Reqs = append(tb.Reqs, model.WriteReq{Put: model.Item{"pk": model.Str(fmt.Sprintf("b%02d", i)), "v": model.Num("1")}})
+					}
+					if rapid.Bool().Draw(rt, "firstTableMany") {
+						op.Batch[0].Reqs = nil
+						for i := 0; i < 13; i++ {
+							it := g.item(rt)
+							a := g.s.KeyAttrs()[len(g.s.KeyAttrs())-1]
+							switch g.s.Attrs[a] {
+							case "N":
+								it[a] = model.Num(fmt.Sprint(2000 + i))
+							case "B":
+								it[a] = model.Bin([]byte{byte(i + 1), 9})
+							default:
+								it[a] = model.Str(fmt.Sprintf("many-%02d", i))
+							}
+							op.Batch[0].Reqs = append(op.Batch[0].Reqs, model.WriteReq{Put: it})
+						}
+					}
+					op.Batch = append(op.Batch, tb)
+				}
+				step(op)
+			},
 			"transact": func(rt *rapid.T) { step(model.Op{Kind: "TransactWrite"}) },
 			"describe": func(rt *rapid.T) { step(model.Op{Kind: "DescribeTable", Table: s.Table}) },
 			"toggle": func(rt *rapid.T) {
@@ -604,7 +633,7 @@ func init() {
 	}
 }
 
-const ruleC19 = "rapid: a state built by a short write history on 1-3 tables (0-2 indexes each), then one BatchWriteItem (1-25 requests, mixed puts and deletes, several tables, keys present and absent, no key twice; batches above 20 requests generated with fixed weight) or one BatchGetItem (1-15 present and absent keys per table, several tables). Oracle: twin-client differential - one pair of clients executes the batch, a second pair the same requests as individual PutItem / DeleteItem calls; the canonical internal dumps (tables and every index) must be equal, the reference model agrees with both, UnprocessedItems is empty; BatchGetItem responses equal, per table, the multiset of individual GetItem results for keys that exist, and (unless the open finding F-BGUNPROC applies) absent keys are not reported as unprocessed. Non-trivial = batch over >= 2 tables, or with a delete of a present key, or a BatchGet with an absent key; distinct = hash of (setup, batch)."
+const ruleC19 = "rapid: a state built by a short write history on 1-3 tables (0-2 indexes each), then one BatchWriteItem (1-25 requests, mixed puts and deletes, several tables, keys present and absent, no key twice; batches above 20 requests generated with fixed weight) or one BatchGetItem (1-15 present and absent keys per table, several tables, sometimes filled up to 60 / 99 / exactly 100 keys, the service limit). Oracle: twin-client differential - one pair of clients executes the batch, a second pair the same requests as individual PutItem / DeleteItem calls; the canonical internal dumps (tables and every index) must be equal, the reference model agrees with both, UnprocessedItems is empty; BatchGetItem responses equal, per table, the multiset of individual GetItem results for keys that exist, and (unless the open finding F-BGUNPROC applies) absent keys are not reported as unprocessed. Non-trivial = batch over >= 2 tables, or with a delete of a present key, or a BatchGet with an absent key; distinct = hash of (setup, batch)."
 
 // TestC19 decides property C19.
 func TestC19(t *testing.T) {
@@ -653,6 +682,29 @@ func TestC19(t *testing.T) {
 					}
 				}
 				op.Batch = append(op.Batch, tb)
+			}
+			// sometimes fill the request up to (at most) the 100-key service limit
+			if fill := rapid.SampledFrom([]int{0, 0, 0, 60, 99, 100}).Draw(rt, "fillTo"); fill > 0 {
+				total := 0
+				for _, tb := range op.Batch {
+					total += len(tb.Keys)
+				}
+				g := gens[0]
+				a := g.s.KeyAttrs()[len(g.s.KeyAttrs())-1]
+				for i := 0; total < fill; i++ {
+					k := g.key(rt)
+					switch g.s.Attrs[a] {
+					case "N":
+						k[a] = model.Num(fmt.Sprint(5000 + i))
+					case "B":
+						k[a] = model.Bin([]byte{byte(i + 1), 11})
+					default:
+						k[a] = model.Str(fmt.Sprintf("fill-%03d", i))
+					}
+					op.Batch[0].Keys = append(op.Batch[0].Keys, k)
+					total++
+				}
+				absentGet = true
 			}
 			multiTable = len(op.Batch) >= 2
 			c.Batch = op
